@@ -19,6 +19,7 @@ def pick(mod, ids, prefix, hdir):
             h = v["harness"]
             if not h.startswith("../"):
                 v["harness"] = "../%s/%s" % (hdir, h)
+            if hdir == "C07": v["defines"] = list(v.get("defines", [])) + ["KF_EXCLUDE_C07_ZERO_SIZE_LEFTOVER"]   # region of C07's known finding: decided (and reported) under C07 only
             out.append(v)
     return out
 IDENT = dict(id="sleep_identity", kind="native", harness="sleep_identity.c", entry="main", sources=[], what="(ms/1000)*10^9 + (ms%1000)*10^6 == ms*10^6 and nsec < 10^9 for all 2^32 ms", timeout=600)
@@ -31,4 +32,4 @@ LEVEL_TEXT = ("p_uthread_sleep: for every duration and every sequence of interru
               "blocking socket call: the outcome contracts of C06/C07/C09 are proved with EINTR injected at every invocation of every blocking system call, any number of times; an "
               "interrupted-call error never reaches the caller and the unit/data is not lost.")
 LEVEL_NOTE = ("Trusted: env/time.c (clock_nanosleep returns the error number and does not set errno; nanosleep sets errno; remainder <= request), the kernel models of C06/C07/C09. "
-              "Real elapsed time is the kernel's: the proof shows the library requests exactly the remaining time after each interruption. Known findings of C07 apply to the shared units.")
+              "Real elapsed time is the kernel's: the proof shows the library requests exactly the remaining time after each interruption. The region of C07's known finding (existing segment of size 0) is excluded from the shared shm unit here and decided under C07.")
